@@ -7,6 +7,8 @@ import sys
 import time
 import traceback
 
+import sa
+
 from .core import Index, AnalysisError
 from .fold import Folder
 from .report import Check, VERIF_ROOT
@@ -56,12 +58,27 @@ def _error_evidence(prop_id, tier, seed, evidence_dir, msg, wall):
         pass
 
 
+def selfcheck() -> int:
+    """setup: every module of the analyser compiles and imports; the engine parses the repository index"""
+    import pkgutil
+    import sa.rules
+    n = 0
+    for mi in list(pkgutil.iter_modules(sa.__path__, 'sa.')) + list(pkgutil.iter_modules(sa.rules.__path__, 'sa.rules.')):
+        if mi.name.endswith('.rules') or mi.name == 'sa.run':
+            continue
+        importlib.import_module(mi.name)
+        n += 1
+    print('selfcheck: %d analyser modules import' % n)
+    return 0
+
+
 def main(argv=None) -> int:
     ap = argparse.ArgumentParser(prog='verify')
     sub = ap.add_subparsers(dest='cmd', required=True)
     pc = sub.add_parser('check')
     pc.add_argument('property')
     pa = sub.add_parser('all')
+    sub.add_parser('selfcheck')
     for p in (pc, pa):
         p.add_argument('--tier', default=os.environ.get('VERIF_TIER') or 'quick', choices=['quick', 'thorough'])
         p.add_argument('--repo', default=os.environ.get('VERIF_REPO', '/repo'))
@@ -69,6 +86,8 @@ def main(argv=None) -> int:
         p.add_argument('--replay-dir', default=os.path.join(VERIF_ROOT, 'replays'))
         p.add_argument('-v', '--verbose', action='store_true')
     a = ap.parse_args(argv)
+    if a.cmd == 'selfcheck':
+        return selfcheck()
     if a.cmd == 'check':
         return run_check(a.property, a.tier, a.repo, a.verbose, a.evidence_dir, a.replay_dir)
     if a.cmd == 'all':
